@@ -79,8 +79,10 @@ class C14(Prop):
             elif c < 0.42:
                 r1 = adv()
                 r2 = adv() if rnd.random() < 0.5 else r1
-                ops.append(['speed', enc(r1), enc(r2), enc(rnd.choice([0, 1, 1, 2, 3, num(0, 5), Fraction(1, 2)]))])
                 if rnd.random() < 0.5:
+                    ops.append(['read', enc(r1)])
+                ops.append(['speed', enc(r1), enc(r2), enc(rnd.choice([0, 0, 1, 1, 2, 3, num(0, 5), Fraction(1, 2)]))])
+                if rnd.random() < 0.6:
                     ops.append(['read', enc(r2)])
             elif c < 0.62:
                 r1 = adv()
@@ -186,6 +188,13 @@ class C14(Prop):
                         if play and v - lv != speed * (r - lr):
                             res.violations.append('op %d: Δtime %s ≠ speed %s × Δreal %s' % (i, v - lv, speed, r - lr))
                         feats.add('rate' if play else 'still')
+                    if li == i - 2 and ops[i - 1][0] in ('speed', 'start', 'stop') and lr == r and \
+                            all(Fraction(dec(x)) == r for x in ops[i - 1][1:(3 if ops[i - 1][0] == 'speed' else 2)]):
+                        # nothing but the setting happened at this instant: the clock does not jump
+                        feats.add('continuity-' + ops[i - 1][0])
+                        if v != lv:
+                            res.violations.append('op %d: %s at one instant moved the clock: %s -> %s'
+                                                  % (i, ops[i - 1][0] if ops[i - 1][0] != 'speed' else 'speed = %s' % dec(ops[i - 1][3]), lv, v))
                     if li == i - 2 and ops[i - 1][0] == 'time' and Fraction(dec(ops[i - 1][2])) == r:
                         t = Fraction(dec(ops[i - 1][3]))
                         same = Fraction(dec(ops[i - 1][1])) == lr     # assignment made at the reading of the previous read
